@@ -431,3 +431,10 @@ func FuzzGen[C any](f *testing.F, prop string, gen func(*rapid.T) C, check func(
 		}
 	}))
 }
+
+// InfraExit ends the process with the infrastructure status (2): the run is inconclusive,
+// not a verdict on the property.
+func InfraExit(msg string) {
+	fmt.Println("INFRA: " + msg)
+	os.Exit(2)
+}
